@@ -101,3 +101,12 @@ package aquahash
 //@   ensures[C14] @algo result == nil ==> (header.Version == 2 ==> argon_mem == 1) && (header.Version == 3 ==> argon_mem == 16) && (header.Version == 4 ==> argon_mem == 32)
 //@   loop 1 invariant[C14] 0 <= i && i <= 32
 //@   nopanic[C14]
+
+// ---- uncle count (C13) ---------------------------------------------------------------------------
+// A block is accepted by VerifyUncles only with at most two uncles, and from HF5 on (judged at
+// the block's own height) with at most one.
+//@ func Aquahash.VerifyUncles
+//@   requires aquahash != nil && aquahash.config != nil && block != nil && block.header != nil && block.header.Number != nil
+//@   requires aquahash.config.PowMode != ModeFullFake && as(chaincfg(chain), "*params.ChainConfig") != nil
+//@   ensures[C13] @count result == nil ==> slicelen(blockuncles(block)) <= uint64(2)
+//@   ensures[C13] @counthf5 result == nil && old(ishf(as(chaincfg(chain), "*params.ChainConfig"), 5, big(block.header.Number))) ==> slicelen(blockuncles(block)) <= uint64(1)
